@@ -164,6 +164,25 @@ def true_sender(ctx):
     if n == 0:
         raise AnalysisError('rawDBusMessageReceived never reaches '
                             'Bus.messageReceived')
+    # "unchanged except the sender": the re-marshal must produce a coherent
+    # message again - header and body in one byte order (C03-D4)
+    from . import c03
+
+    class Sub:
+        prog = ctx.prog
+
+        def ob(self, rule, where, slot, ok, msg, detail=None,
+               nontrivial=True, loc=None):
+            if slot.startswith('body-byte-order=header-byte-order') or \
+                    slot.startswith('byte-order-flag'):
+                ctx.ob('C14.D3', where, 'remarshal:' + slot, ok, msg, detail,
+                       nontrivial)
+            return ok
+    mfi = ctx.prog.func('message.DBusMessage._marshal')
+    sub = Sub()
+    for c in c03.message_classes(ctx.prog):
+        paths = Interp(ctx.prog, exc_edges=False, self_cls=c).run(mfi)
+        c03.marshal_rules(sub, c, mfi, paths, ('param', 'self'))
 
 
 def unicast(ctx):
